@@ -48,3 +48,9 @@ CHECKS["C20"] = ("property-based differential testing (file mode vs pipe mode) w
 CHECKS["C23"] = ("metamorphic property-based testing (same input twice under different address-space layouts, fast and sanitizer builds)",
                  "Generated scripts with all query kinds are run twice per build with ASLR on and different environment size / cwd; outputs must be byte-identical. Exploration only.",
                  "kernel ASLR; no external oracle", "DESIGN.md §4 C23")
+CHECKS["C29"] = ("property-based differential testing of out-of-fragment scripts (wider term grammar than the declared logic) against z3+cvc5",
+                 "Generated well-sorted scripts outside the declared logic's fragment; errors/unknown are accepted, definitive answers must match the references on the accepted assertions. Exploration only.",
+                 REF, "DESIGN.md §4 C29")
+CHECKS["C30"] = ("property-based testing with a time-based oracle (tiny qualifying instances x generated configurations, 200x slack, three confirmations)",
+                 "Weak by nature: testing observes only 'no answer within T' on tiny instances that the default engine and both references decide in well under a second; three time-outs with 200x slack are reported. Exploration only; liveness cannot be established.",
+                 "wall-clock (T = 20 s quick / 60 s thorough, factor 200); z3/cvc5 qualify instances", "DESIGN.md §4 C30, §7")
